@@ -45,26 +45,73 @@ def run(ctx):
     ctx.assume("AES / HKDF behave as ideal primitives; absence of (step, index) reuse over all executions is not decided")
 
 
+def resolve_consts(e, facts):
+    """replace named constants by their evaluated values where the fact base knows them"""
+    if not isinstance(e, tuple):
+        return e
+    if e and e[0] == "const" and isinstance(e[1], str):
+        v = facts.const_val(e[1])
+        return ("const", v) if isinstance(v, int) else e
+    return tuple(resolve_consts(x, facts) if isinstance(x, tuple) else x for x in e)
+
+
+def admitted_offsets(facts, maxoff):
+    """largest offset PrssIndex128::new accepts, from its guard (None if the guard is not recognised)"""
+    nb = facts.bodies.get(PI + "::new")
+    if nb is None or maxoff is None:
+        return None
+    for bb in sorted(nb.live_blocks()):
+        t = nb.term(bb)
+        if t["k"] != "switch":
+            continue
+        ex = flow.expr_of(nb, t["o"])
+        if ex[0] == "bin" and ex[1] in ("Le", "Lt", "Gt", "Ge") and "offset" in flow.field_names_in(ex) and (("const", maxoff) in (ex[2], ex[3]) or "MAX_OFFSET" in str(ex)):
+            off_left = "offset" in flow.field_names_in(ex[2])
+            op = ex[1] if off_left else {"Le": "Ge", "Lt": "Gt", "Gt": "Lt", "Ge": "Le"}[ex[1]]
+            return maxoff if op in ("Le", "Gt") else maxoff - 1
+    return None
+
+
 def index_packing(ctx, facts):
-    ctx.rule("RANGE-index: u64::from(PrssIndex128) == (u64::from(index) << S) + u64::from(offset) with MAX_OFFSET < 2^S; new() returns Ok only if offset <= MAX_OFFSET; the struct is constructed only in new()")
+    ctx.rule("RANGE-index: u64::from(PrssIndex128), evaluated for every offset that new() admits and sampled indices, is index * D + g(offset) with g injective and spanning less than D, within 64 bits (so distinct (index, offset) give distinct cipher inputs); new() returns Ok only if offset <= MAX_OFFSET; the struct is constructed only in new()")
     b = facts.bodies.get(f"<u64 as std::convert::From<{PI}>>::from")
     if b is None:
         b = next((x for p, x in facts.bodies.items() if re.search(r"impl std::convert::From<.*PrssIndex128> for u64>::from$", p)), None)
     if b is None:
         return ctx.missing("RANGE-index", "From<PrssIndex128> for u64")
     ctx.count(bodies=1)
-    e = flow.expr_of(b, {"cp": [0]})
-    shift = None
-    ok = False
-    if e[0] == "bin" and e[1] == "Add":
-        l, r = e[2], e[3]
-        if l[0] == "bin" and l[1] == "Shl" and l[3][0] == "const":
-            shift = l[3][1]
-            ok = "index" in flow.field_names_in(l[2]) and "offset" in flow.field_names_in(r)
+    from rules.C13 import ieval, NoEval
+    e = resolve_consts(flow.expr_of(b, {"cp": [0]}, max_depth=40), facts)
     maxoff = facts.const_val(PI + "::MAX_OFFSET")
-    ctx.ob("RANGE-index", "packing-shape", ok, f"(index << {shift}) + offset" if ok else f"packing is {str(e)[:160]}", site_of(b))
-    okm = ok and maxoff is not None and maxoff < (1 << shift) and shift + 32 <= 64
-    ctx.ob("RANGE-index", "offset-fits-below-shift", okm, f"MAX_OFFSET = {maxoff} < 2^{shift}: (index, offset) -> u64 is injective on admitted offsets" if okm else f"MAX_OFFSET = {maxoff} does not fit below the shift {shift}: two different (index, offset) pairs map to the same AES input (randomness reused)", site_of(b))
+    # which offsets does new() admit?  (`<=` admits MAX_OFFSET itself; decided below, used here)
+    admitted = admitted_offsets(facts, maxoff)
+    IDX, OFF = ("arg", 1, "index", "0"), ("arg", 1, "offset")
+    def f(i, o):
+        return ieval(e, {IDX: i, OFF: o})
+    ok, why, D = False, "", None
+    try:
+        if maxoff is None or admitted is None:
+            raise NoEval("MAX_OFFSET / the offset guard of new()")
+        g = [f(0, o) for o in range(admitted + 1)]
+        D = f(1, 0) - f(0, 0)
+        samples = (1, 2, 3, 0x7fffffff, 0x80000000, 0xfffffffe, 0xffffffff)
+        affine = all(f(i, o) == i * D + g[o] for i in samples for o in (0, 1, admitted // 2, admitted - 1, admitted))
+        distinct = len(set(g)) == len(g)
+        below = D > 0 and max(g) - min(g) < D
+        fits = 0 <= min(g) and 0xffffffff * D + max(g) < (1 << 64)
+        ok = affine and distinct and below and fits
+        if not distinct:
+            dup = next(o for o in range(len(g)) if g.index(g[o]) != o)
+            why = f"offsets {g.index(g[dup])} and {dup} (both admitted by new()) give the same cipher input for the same index: the block is reused inside one value"
+        elif not affine:
+            why = "the packing is not index * D + g(offset) on the sampled indices"
+        elif not below:
+            why = f"the offset part spans {max(g) - min(g)} >= index stride {D}: (index, offset) and (index + 1, offset') collide"
+        elif not fits:
+            why = "the packed value does not fit 64 bits"
+    except NoEval as ex:
+        why = f"cannot evaluate the packing expression ({ex})"
+    ctx.ob("RANGE-index", "packing-injective", ok, f"u64::from(PrssIndex128) = index * {D} + g(offset), g injective on the {admitted + 1} admitted offsets and < {D} (evaluated for every admitted offset)" if ok else why, site_of(b))
     nb = facts.bodies.get(PI + "::new")
     if nb is None:
         return ctx.missing("RANGE-index", "PrssIndex128::new")
